@@ -41,6 +41,7 @@ struct LedgerT {
   long n_val_ctor, n_def_ctor, n_copy_ctor, n_move_ctor, n_copy_asg, n_move_asg, n_dtor, n_self_move, n_self_copy;
   // fault injection
   long events, fault_at;
+  long faults_thrown;  // injected faults actually thrown (a callee such as std::vector::shrink_to_fit may swallow one)
   // protected address range (C07): element operations on NTR objects inside [prot_lo, prot_hi) are counted
   const char *prot_lo, *prot_hi;
   long prot_hits;
@@ -58,6 +59,7 @@ struct LedgerT {
     reset_counters();
     events = 0;
     fault_at = 0;
+    faults_thrown = 0;
     prot_lo = prot_hi = 0;
     prot_hits = 0;
     nfail = 0;
@@ -96,7 +98,10 @@ inline void fail(const char *tags, const char *fmt, ...) {
 
 inline void event(int where) {
   LedgerT &l = L();
-  if (++l.events == l.fault_at) throw InjectedFault{where};
+  if (++l.events == l.fault_at) {
+    ++l.faults_thrown;
+    throw InjectedFault{where};
+  }
 }
 
 // ---- address ledger (NTR) -------------------------------------------------------------------------------------
